@@ -16,6 +16,7 @@ import (
 	"fmt"
 	"math/rand"
 	"reflect"
+	"runtime"
 	"runtime/debug"
 	"sort"
 	"strings"
@@ -452,6 +453,47 @@ func (h *history) perturb(after bool) {
 	default:
 		time.Sleep(d)
 	}
+}
+
+// quiet reports whether a "nothing moves" observation can be trusted for this
+// history: no compute function in flight, every live query has run at least
+// once, the Go scheduler and the OS give goroutines their turn promptly (a
+// 1 ms sleep returns within 25 ms, three times; then a few hundred yields so
+// that every runnable goroutine gets to run), and no goroutine of the process
+// is queued on the harness's process-wide yield handler or sits runnable
+// inside a rerunner / binlog frame.
+func (h *history) quiet() bool {
+	if atomic.LoadInt64(&h.inflight) > 0 {
+		return false
+	}
+	for _, q := range h.queries {
+		q.mu.Lock()
+		n := q.runs
+		q.mu.Unlock()
+		if n == 0 {
+			return false
+		}
+	}
+	for k := 0; k < 3; k++ {
+		t0 := time.Now()
+		time.Sleep(time.Millisecond)
+		if time.Since(t0) > 25*time.Millisecond {
+			return false
+		}
+	}
+	for k := 0; k < 300; k++ {
+		runtime.Gosched()
+	}
+	for _, g := range strings.Split(vlib.Stacks(), "\n\n") {
+		if strings.Contains(g, "vlib.(*Yielder).handle") && (strings.Contains(g, "sync.(*Mutex).Lock") || strings.Contains(g, "[runnable")) {
+			return false
+		}
+		if strings.Contains(g, "[runnable") && (strings.Contains(g, "reactive.(*Rerunner).run") || strings.Contains(g, "livesql.(*Binlog).RunPollLoop") ||
+			strings.Contains(g, "reactive.(*node).invalidate") || strings.Contains(g, "c07.(*history).deliver")) {
+			return false
+		}
+	}
+	return atomic.LoadInt64(&h.inflight) == 0
 }
 
 // slowRead keeps a SELECT of a query that another rerunner issues too "in
@@ -1479,13 +1521,40 @@ func runHistory(run *vlib.Run, i int, fixed *fixedPlan) {
 	runsAtEnd := atomic.LoadInt64(&h.computeRuns)
 	outcome := vlib.WaitCond(cond, h.activity, 400*time.Millisecond, 20*time.Second)
 	if outcome == vlib.QuiescentNot {
-		// stuck or slow? confirm with a second, independent observation window
-		switch vlib.WaitCond(cond, h.activity, 0, 10*time.Second) {
-		case vlib.Reached:
-			outcome = vlib.Reached
-			run.Count("converged_only_in_confirmation_window", 1)
-		case vlib.Undecided:
-			outcome = vlib.Undecided
+		// Stuck or merely slow? "No activity" also describes a process whose
+		// goroutines are starved of CPU. The verdict is only taken when no
+		// compute function of this history is in flight, every query has run,
+		// the scheduler answers promptly, nobody is queued on the harness's own
+		// yield handler, and a further observation window stayed silent with
+		// the condition still false. Otherwise keep waiting; at the deadline
+		// the history is inconclusive.
+		deadline := time.Now().Add(90 * time.Second)
+		for outcome == vlib.QuiescentNot {
+			if time.Now().After(deadline) {
+				outcome = vlib.Undecided
+				break
+			}
+			if !h.quiet() {
+				run.Count("verdict_postponed_not_quiet", 1)
+				time.Sleep(100 * time.Millisecond)
+				if cond() {
+					outcome = vlib.Reached
+					run.Count("converged_only_in_confirmation_window", 1)
+				}
+				continue
+			}
+			a0 := h.activity()
+			switch vlib.WaitCond(cond, h.activity, 0, 10*time.Second) {
+			case vlib.Reached:
+				outcome = vlib.Reached
+				run.Count("converged_only_in_confirmation_window", 1)
+				continue
+			case vlib.Undecided:
+				continue
+			}
+			if h.quiet() && h.activity() == a0 && !cond() {
+				break // quiescent and wrong
+			}
 		}
 	}
 	rerunsAfter := atomic.LoadInt64(&h.computeRuns) - runsAtEnd
@@ -1505,6 +1574,9 @@ func runHistory(run *vlib.Run, i int, fixed *fixedPlan) {
 			}
 			q.mu.Unlock()
 		}
+	}
+	if outcome == vlib.QuiescentNot && len(stale) == 0 {
+		outcome = vlib.Reached // everything agrees after all
 	}
 	stuck := ""
 	if n := atomic.LoadInt64(&h.inflight); n > 0 && outcome == vlib.QuiescentNot {
